@@ -123,11 +123,40 @@ def reachable_objects(params, depth=3):
     return out
 
 
+class _Inline(ast.NodeTransformer):
+    """Replace the names bound by a contract's `lets` by their defining expressions."""
+    def __init__(self, lets):
+        self.lets = lets
+
+    def visit_Name(self, node):
+        if isinstance(node.ctx, ast.Load) and node.id in self.lets:
+            return self.visit(ast.parse(self.lets[node.id].strip(), mode='eval').body)
+        return node
+
+
+class _Olds(list):
+    """Values of the old(..) sub-expressions; one that could not be evaluated in the pre-state (e.g. it is guarded
+    by a condition that is false) raises only if the clause really reads it."""
+    def __getitem__(self, i):
+        v = list.__getitem__(self, i)
+        if isinstance(v, _OldError):
+            raise v.exc
+        return v
+
+
+class _OldError:
+    def __init__(self, exc):
+        self.exc = exc
+
+
 class Clause:
-    def __init__(self, label, text):
+    def __init__(self, label, text, lets=None):
         self.label, self.text = label, text
         rw = _Rewrite()
-        tree = rw.visit(ast.parse(text.strip(), mode='eval'))
+        tree0 = ast.parse(text.strip(), mode='eval')
+        if lets:
+            tree0 = _Inline(lets).visit(tree0)
+        tree = rw.visit(tree0)
         ast.fix_missing_locations(tree)
         self.code = compile(tree, f'<contract:{label}>', 'eval')
         self.old_attrs = rw.attrs
@@ -147,7 +176,11 @@ class Clause:
                     except Exception:
                         pass
         for c in self.olds:
-            v = eval(c, env)
+            try:
+                v = eval(c, env)
+            except Exception as ex:      # noqa
+                vals.append(_OldError(ex))
+                continue
             try:
                 v = copy.copy(v) if isinstance(v, (list, dict, set)) else v
                 if isinstance(v, dict):
@@ -159,7 +192,7 @@ class Clause:
 
     def post(self, env, olds):
         e = dict(env)
-        e['__old__'] = olds
+        e['__old__'] = _Olds(olds)
         table = getattr(self, '_attr_table', {})
         e['__oldattr__'] = lambda o, a: table[(id(o), a)]
         return eval(self.code, e)
@@ -211,9 +244,18 @@ class RuntimeContract:
     def __init__(self, cdict, spec_defs):
         install_tensor_ghosts()
         self.c = cdict
-        self.requires = [Clause(l, t) for l, t in cdict['requires']]
-        self.ensures = [Clause(l, t) for l, t in cdict['ensures']]
-        self.raises = [(e, Clause(f'raises:{e}', t)) for e, t in cdict['raises']]
+        lets = cdict.get('lets') or {}
+        self.skipped = []
+
+        def mk(label, text):
+            try:
+                return Clause(label, text, lets)
+            except SyntaxError as ex:      # a form the run-time evaluator does not support: decided deductively only
+                self.skipped.append((label, str(ex)))
+                return None
+        self.requires = [c for c in (mk(l, t) for l, t in cdict['requires']) if c is not None]
+        self.ensures = [c for c in (mk(l, t) for l, t in cdict['ensures']) if c is not None]
+        self.raises = [(e, c) for e, c in ((e, mk(f'raises:{e}', t)) for e, t in cdict['raises']) if c is not None]
         self.may_raise = cdict.get('may_raise', [])
         self.base_env = {'same': same, 'is_closure': is_closure, 'captured': captured, 'math': math}
         for name, (params, text) in spec_defs.items():
